@@ -133,8 +133,79 @@ def check_stdlib_names(repo, rep):
                    'interpreter: evaluating the code raises '
                    'AttributeError' % (model.norm(node), bad),
                    loc=mod.loc(node), construct=model.norm(node))
+        # getattr(<foreign module>, <name from a constant table>[, default])
+        for c in ast.walk(mod.tree):
+            if not (isinstance(c, ast.Call) and isinstance(
+                    c.func, ast.Name) and c.func.id == 'getattr' and
+                    len(c.args) >= 2 and isinstance(c.args[0], ast.Name)
+                    and c.args[0].id in ext):
+                continue
+            fn = model.enclosing_function(c)
+            if fn is not None and c.args[0].id in model.local_names_of(fn):
+                continue
+            names = _constant_names(mod, c.args[1], c)
+            if names is None:
+                rep.note('R19a: %s: attribute name of %s not a constant '
+                         'table; not decided' % (mod.loc(c), model.norm(c)))
+                continue
+            base = ext[c.args[0].id]
+            found, _ = resolve_real(base)
+            if found is None:
+                continue
+            for nm in names:
+                n += 1
+                f2, _ = resolve_real(base + '.' + nm)
+                rep.ob('R19a', '%s/getattr[%s.%s]' % (mod.name, base, nm),
+                       bool(f2),
+                       '`%s` looks up `%s.%s`, which does not exist in this '
+                       'interpreter: %s' % (
+                           model.norm(c), base, nm,
+                           'the default is used silently, so the option '
+                           'that selects it contributes nothing'
+                           if len(c.args) > 2 else 'AttributeError'),
+                       loc=mod.loc(c), construct=model.norm(c))
     rep.floor('references to attributes of imported foreign modules', n, 100)
     return n
+
+
+def _constant_names(mod, arg, call):
+    """The finite set of strings `arg` ranges over, or None."""
+    def table(e):
+        if isinstance(e, (ast.Tuple, ast.List, ast.Set)) and e.elts and all(
+                isinstance(x, ast.Constant) and isinstance(x.value, str)
+                for x in e.elts):
+            return [x.value for x in e.elts]
+        if isinstance(e, ast.Dict) and e.keys and all(
+                isinstance(x, ast.Constant) and isinstance(x.value, str)
+                for x in e.keys):
+            return [x.value for x in e.keys]
+        if isinstance(e, ast.Name):
+            for st in mod.tree.body:
+                if isinstance(st, ast.Assign) and any(
+                        isinstance(t, ast.Name) and t.id == e.id
+                        for t in st.targets):
+                    return table(st.value)
+        return None
+    if isinstance(arg, ast.Constant) and isinstance(arg.value, str):
+        return [arg.value]
+    if not isinstance(arg, ast.Name):
+        return None
+    # bound by an enclosing comprehension or for loop over a constant table
+    p = getattr(call, '_parent', None)
+    while p is not None:
+        gens = []
+        if isinstance(p, (ast.GeneratorExp, ast.ListComp, ast.SetComp,
+                          ast.DictComp)):
+            gens = [(g.target, g.iter) for g in p.generators]
+        elif isinstance(p, ast.For):
+            gens = [(p.target, p.iter)]
+        for tgt, it in gens:
+            if isinstance(tgt, ast.Name) and tgt.id == arg.id:
+                return table(it)
+        if isinstance(p, (ast.FunctionDef, ast.Lambda)):
+            break
+        p = getattr(p, '_parent', None)
+    return None
 
 
 def match_values(fi):
@@ -247,7 +318,7 @@ def check_match_api(repo, rep):
                            'such group" for every pattern with a named '
                            'group' % (f.attr, model.norm(a), why),
                            loc=mod.loc(c), construct=model.norm(c))
-    rep.floor('re.Match API obligations', n, 6)
+    rep.floor('re.Match API obligations', n, 3)
 
 
 def body_text(fi, subst, rename=None):
